@@ -340,11 +340,19 @@ pub fn campaign(ctx: &Ctx, name: &str, runs_per_job: u64) -> SubResult {
     files.sort();
     let corpus_size = files.len() as u64;
     let mut corpus_tally = Tally::default();
+    // (statistics only: bounded by count and by two minutes of wall clock, whichever comes first)
+    let replay_started = std::time::Instant::now();
+    let mut replayed = 0u64;
     for f in files.iter().take(4000) {
+        if replay_started.elapsed() > std::time::Duration::from_secs(120) {
+            break;
+        }
         if let Ok(data) = std::fs::read(f) {
             let _ = guard(|| target.run(&data, &mut corpus_tally));
+            replayed += 1;
         }
     }
+    res.tally.sum("final_corpus_items_replayed", replayed);
     res.tally.sum("final_corpus_items", corpus_size);
     let nontrivial_in_corpus = corpus_tally.nontrivial.len() as u64;
     res.tally.sum("final_corpus_nontrivial", nontrivial_in_corpus);
